@@ -60,6 +60,14 @@ class D(operator.Operator):
     def _apply(self, sm):
         # compute b-matrix for L and T states
         xp = common.get_array_module()
+        # a tensor / vector argument of higher dimension than the state's wavenumbers
+        # upgrades the coordinates (as an n-d shift does); a lower one is inconsistent
+        need = max(
+            1 if common.isscalar(self.D) else np.shape(self.D)[-1],
+            1 if common.isscalar(self.k) else np.shape(self.k)[-1],
+        )
+        if need > 1 and (sm.coords is None or sm.kdim < need):
+            sm.setup_coords(need)
         kdim = np.shape(sm.k)[-1]
         if not common.isscalar(self.D) and np.shape(self.D)[-1] != kdim:
             raise ValueError("Incompatible D and state matrix dimensions")
